@@ -34,7 +34,7 @@ Definition s_answer (xs : list item) (d0 : Z) (i : nat) (x : item) (q : query)
        | _ => match nth_error args (Nat.modulo i (length args)) with Some a => AItem a | None => ATypeError end
        end, lastc)
   | QChanged v =>
-      let value := match v with Some c => [c] | None => [x] end in
+      let value := match v with Some c => c | None => [x] end in
       match lastc with
       | Some l => if list_eqb l value then (ABool false, lastc) else (ABool true, Some value)
       | None => (ABool true, Some value)
